@@ -15,7 +15,15 @@ mass.py / density.py / util.py, on every run:
    deleted / duplicated / reordered, last element varied, notations swapped, blanks varied, errors
    injected) and `mass.init(private)`, `density.init(private)` are compared with the model;
 5. the direct oracle (exact `Fraction`s from the translator's reading of the row that belongs to
-   the atom, shares no code with model or library) is evaluated on every swept atom.
+   the atom, shares no code with model or library) is evaluated on every swept atom;
+6. other routes to the same nuclide (`sweep_routes`, real code + oracle): deuterium / tritium through
+   `table.D`, `table.isotope('D')`, `table.symbol('T')`, `table.name('tritium')`; density, number
+   density, interatomic distance and abundance of every element and isotope read through each of
+   its ions, and n / d of the element read through its isotopes;
+7. a private table that is read, revised by its owner (seeded: H[1]=1 rescaling of the guide,
+   enriched elements, revised densities / abundances, D and T always) – the relations
+   rho_iso = rho*m_iso/m, n = rho*N_A/m, n*d^3 = 1e24 on the values the table returns now – and
+   then re-initialised with `mass.init / density.init(table, reload=True)`: the full sweep again.
 """
 from __future__ import annotations
 
@@ -156,8 +164,9 @@ def agrees(expected, got, rel):
     return close(e, got, rel=rel, abs_=0.0) or e == got
 
 
-def oracle_atom(exp: Expect, tbl, z, a, na, real_data=True):
-    """property C06 on the real objects of `tbl` for one atom; returns [(observable, expected, got)]"""
+def oracle_atom(exp: Expect, tbl, z, a, na, real_data=True, obj=None):
+    """property C06 on the real objects of `tbl` for one atom; returns [(observable, expected, got)]
+    (`obj`: the isotope object to read, when it was reached by another route than `tbl[z][a]`)"""
     bad = []
     el = tbl[z]
 
@@ -201,7 +210,7 @@ def oracle_atom(exp: Expect, tbl, z, a, na, real_data=True):
                     bad.append(("atomic weight vs weighted isotope mass", "|%r-%r| <= %r" % (got_m, w, mu),
                                 P.tok(abs(w - got_m))))
     else:
-        iso = el[a]
+        iso = el[a] if obj is None else obj
         m, u = exp.iso_mass(z, a)
         got_m = P.observe(lambda: iso.mass)
         chk("mass", m, got_m, 4e-16)
@@ -290,7 +299,8 @@ def symbols_of(pt):
     return {el.number: el.symbol for el in pt.elements}
 
 
-def sweep(run: Run, label, tbl, exp: Expect, src, dens_rows, na, nontrivial_keys):
+def sweep(run: Run, label, tbl, exp: Expect, src, dens_rows, na, nontrivial_keys, extra=None):
+    extra = extra or {}
     zs = list(range(0, 119))
     obs, isotopes = observe_table(tbl, zs)
     atoms = sorted(obs)
@@ -302,7 +312,7 @@ def sweep(run: Run, label, tbl, exp: Expect, src, dens_rows, na, nontrivial_keys
     if rep[0] != "ok":
         run.disagree("mass-loader", dict(table=label, what="init"), rep[0], "loads")
         return
-    compare_table(run, label, obs, isotopes, rep[1:], atoms, zs, dict(table=label))
+    compare_table(run, label, obs, isotopes, rep[1:], atoms, zs, dict(extra, table=label))
     # the nuclides an element enumerates are the rows of the mass table (plus D and T of H and the
     # neutron's single isotope); `iter(el)` and `table.isotope()` serve the same ones
     for z in zs:
@@ -313,21 +323,290 @@ def sweep(run: Run, label, tbl, exp: Expect, src, dens_rows, na, nontrivial_keys
         for how, g in got.items():
             if g != want:
                 run.violation("%s enumerates other nuclides than the mass table (%s)" % (exp.symbols.get(z), how),
-                              dict(table=label, z=z, how=how, expected=want, got=g), observable="isotopes", z=z)
+                              dict(extra, table=label, z=z, how=how, expected=want, got=g), observable="isotopes", z=z)
                 break
         for a in want[:1] + want[-1:]:
             ok = P.observe(lambda: tbl.isotope("%d-%s" % (a, exp.symbols[z])).isotope) if z else a
             if ok != a:
                 run.violation("table.isotope('%d-%s') does not find the nuclide" % (a, exp.symbols.get(z)),
-                              dict(table=label, z=z, a=a, got=P.tok(ok)), observable="isotope()", z=z)
+                              dict(extra, table=label, z=z, a=a, got=P.tok(ok)), observable="isotope()", z=z)
     for z, a in atoms:
         run.count(key=(label, z, a), nontrivial=(z, a) in nontrivial_keys,
                   sample="%s %s[%d]" % (label, exp.symbols.get(z), a) if (z, a) in ((92, 235), (1, 2), (17, 0)) else None,
                   tag="sweep:" + label)
         for name, e, g in oracle_atom(exp, tbl, z, a, na):
             run.violation("%s of %s%s is not the table's" % (name, exp.symbols.get(z), "[%d]" % a if a else ""),
-                          dict(table=label, z=z, a=a, observable=name, expected=e, got=g),
+                          dict(extra, table=label, z=z, a=a, observable=name, expected=e, got=g),
                           observable=name, z=z, a=a)
+    sweep_routes(run, label, tbl, exp, na, atoms, nontrivial_keys, extra)
+
+
+# =========================================================================== other routes to the same nuclide
+
+ALIASES = (("D", 2, "deuterium"), ("T", 3, "tritium"))
+
+
+def alias_routes(tbl, name, long_name):
+    """the documented ways to reach deuterium / tritium other than H[2] / H[3]"""
+    return [("table.%s" % name, lambda: getattr(tbl, name)),
+            ("table.isotope(%r)" % name, lambda: tbl.isotope(name)),
+            ("table.symbol(%r)" % name, lambda: tbl.symbol(name)),
+            ("table.name(%r)" % long_name, lambda: tbl.name(long_name))]
+
+
+def oracle_ion(exp: Expect, tbl, z, a, q, na, atom=None):
+    """an ion hands everything but charge and mass on to its atom: density, number density, interatomic
+    distance (and abundance) read through `atom.ion[q]` are those of the nuclide"""
+    bad = []
+    if atom is None:
+        atom = tbl[z] if a == 0 else tbl[z][a]
+    ion = P.observe(lambda: atom.ion[q])
+    if isinstance(ion, str):
+        return [("ion", "exists", "X")]
+
+    def chk(name, expected, got, rel):
+        if not agrees(expected, got, rel):
+            bad.append((name, P.tok(fnum(expected)) if not isinstance(expected, str) else expected, P.tok(got)))
+
+    rho = exp.density(z)
+    em, _ = exp.el_mass(z)
+    got_rho = P.observe(lambda: ion.density)
+    n = P.observe(lambda: ion.number_density)
+    d = P.observe(lambda: ion.interatomic_distance)
+    if rho is None:
+        chk("density", None, got_rho, 0)               # unknown, not an error
+        chk("number_density", None, n, 0)
+        chk("interatomic_distance", None, d, 0)
+    elif isinstance(rho, Fraction) and isinstance(em, Fraction) and em != 0:
+        if a == 0:
+            chk("density", rho, got_rho, 0)
+        else:
+            m, _ = exp.iso_mass(z, a)
+            if isinstance(m, Fraction):
+                chk("density", rho * m / em, got_rho, 1e-13)
+        if rho != 0:
+            chk("number_density", rho * na / em, n, 1e-13)
+            if P.isfinite(n) and P.isfinite(d) and n > 0:
+                if not close(n * d ** 3, 1e24, rel=1e-12):
+                    bad.append(("n*d^3", "1e24", P.tok(n * d ** 3)))
+            else:
+                bad.append(("interatomic_distance", "finite", P.tok(d)))
+    if a != 0:
+        ab, _ = exp.abundance(z, a)
+        chk("abundance", ab, P.observe(lambda: ion.abundance), 1e-13)
+    return bad
+
+
+def sweep_routes(run: Run, label, tbl, exp: Expect, na, atoms, nontrivial_keys, extra):
+    """real code + oracle only: the nuclides of the sweep reached by another documented route –
+    deuterium and tritium by their aliases, every nuclide through its ions, and the number density /
+    interatomic distance of an element read through its isotopes"""
+    for name, a, long_name in ALIASES:
+        for how, get in alias_routes(tbl, name, long_name):
+            run.count(key=(label, "alias", how), nontrivial=True, tag="routes:alias",
+                      sample="%s %s" % (label, how) if how.startswith("table.isotope") else None)
+            obj = P.observe(get)
+            inp = dict(extra, table=label, z=1, a=a, route=how)
+            if isinstance(obj, str):
+                run.violation("%s does not find the nuclide" % how, dict(inp, got="X"), observable="alias", z=1, a=a)
+                continue
+            if P.observe(lambda: (obj.number, obj.isotope)) != (1, a):
+                run.violation("%s is not %d-H" % (how, a), dict(inp, got=repr(obj)), observable="alias", z=1, a=a)
+                continue
+            for what, e, g in oracle_atom(exp, tbl, 1, a, na, obj=obj):
+                run.violation("%s of %d-H reached as %s is not the table's" % (what, a, how),
+                              dict(inp, observable=what, expected=e, got=g), observable=what, z=1, a=a)
+            for q in (1, -1):
+                for what, e, g in oracle_ion(exp, tbl, 1, a, q, na, atom=obj):
+                    run.violation("%s of %d-H reached as %s.ion[%d] is not the table's" % (what, a, how, q),
+                                  dict(inp, q=q, observable=what, expected=e, got=g), observable=what, z=1, a=a)
+    for z, a in atoms:
+        el = tbl[z]
+        charges = P.observe(lambda: list(el.ions))
+        if isinstance(charges, str):
+            charges = []
+        if a != 0:
+            # n and d of an isotope are those of the element it belongs to
+            iso = el[a]
+            rho = exp.density(z)
+            em, _ = exp.el_mass(z)
+            n = P.observe(lambda: iso.number_density)
+            d = P.observe(lambda: iso.interatomic_distance)
+            bad = []
+            if rho is None:
+                if n is not None:
+                    bad.append(("number_density", "N", P.tok(n)))
+                if d is not None:
+                    bad.append(("interatomic_distance", "N", P.tok(d)))
+            elif isinstance(rho, Fraction) and isinstance(em, Fraction) and em != 0 and rho != 0:
+                if not agrees(rho * na / em, n, 1e-13):
+                    bad.append(("number_density", P.tok(fnum(rho * na / em)), P.tok(n)))
+                elif not (P.isfinite(d) and close(n * d ** 3, 1e24, rel=1e-12)):
+                    bad.append(("n*d^3", "1e24", P.tok(d)))
+            for what, e, g in bad:
+                run.violation("%s read through %s[%d] is not the element's" % (what, exp.symbols.get(z), a),
+                              dict(extra, table=label, z=z, a=a, route="isotope", observable=what, expected=e, got=g),
+                              observable=what, z=z, a=a)
+        for q in charges:
+            run.count(key=(label, "ion", z, a, q), nontrivial=(z, a) in nontrivial_keys, tag="routes:ion",
+                      sample="%s %s[%d].ion[%d]" % (label, exp.symbols.get(z), a, q) if (z, a, q) == (26, 56, 3) else None)
+            for what, e, g in oracle_ion(exp, tbl, z, a, q, na):
+                run.violation("%s of %s%s read through its ion %+d is not the table's"
+                              % (what, exp.symbols.get(z), "[%d]" % a if a else "", q),
+                              dict(extra, table=label, z=z, a=a, q=q, route="ion", observable=what, expected=e, got=g),
+                              observable=what, z=z, a=a)
+
+
+# =========================================================================== revised and re-initialised tables
+
+def read_everything(tbl):
+    """a first read of every observable of every nuclide and of its ions"""
+    for el in tbl:
+        for atom in [el] + list(el):
+            for q in (0,) + tuple(el.ions[:1]) + tuple(el.ions[-1:]):
+                x = atom if q == 0 else P.observe(lambda: atom.ion[q])
+                for name in ("mass", "density", "number_density", "interatomic_distance", "abundance"):
+                    P.observe(lambda: getattr(x, name))
+    for name, _a, long_name in ALIASES:
+        for _how, get in alias_routes(tbl, name, long_name):
+            P.observe(lambda: get().mass)
+
+
+def customise(tbl, seed):
+    """the owner of a private table revises it (seeded): masses rescaled to H[1] = 1 as in
+    doc/sphinx/guide/customizing.rst, isotopically enriched elements, revised densities and abundances;
+    returns the atomic numbers of the elements whose mass or density was revised"""
+    import random
+    rng = random.Random(seed)
+    mode = rng.choice(["enriched", "both"])    # (rescaling alone leaves rho/m, hence n and d, unchanged)
+    touched = set()
+    if mode in ("H=1", "both"):
+        scale = tbl.H[1].mass if rng.random() < 0.7 else rng.uniform(0.5, 2.0)
+        for el in tbl:
+            el._mass /= scale
+            if getattr(el, "_density", None) is not None:
+                el._density /= scale
+            for iso in el:
+                iso._mass /= scale
+            touched.add(el.number)
+    if mode in ("enriched", "both"):
+        els = [el for el in tbl if el.number and el.isotopes]
+        picks = rng.sample(els, 25) + [tbl.H, tbl.Li, tbl.C]
+        for el in picks:
+            r = rng.random()
+            iso = el[rng.choice(el.isotopes)]
+            if r < 0.6:
+                el._mass = iso.mass                       # the pure isotope
+                for other in el:
+                    other._abundance = 100.0 if other is iso else 0.0
+            elif r < 0.8:
+                el._mass = el.mass * rng.uniform(0.9, 1.1)
+                iso._mass = iso.mass * rng.uniform(0.99, 1.01)
+                iso._mass_unc = 0.5
+            else:
+                el._density = rng.uniform(0.1, 20.0)
+            touched.add(el.number)
+    for a in rng.choice([(2,), (3,), (2, 3)]):          # deuterium / tritium are always part of the revision
+        if True:
+            tbl.H[a]._mass = tbl.H[a].mass * rng.uniform(0.9, 1.1)
+            tbl.H[a]._abundance = rng.uniform(0.0, 50.0)
+            touched.add(1)
+    return touched
+
+
+def oracle_relations(tbl, z, na):
+    """the relations of the property that hold in ANY table, on the values the table returns now:
+    isotope density = element density * mass ratio, n = rho*N_A/m, n*d^3 = 1e24 – for the element, its
+    isotopes and one ion of each"""
+    bad = []
+    el = tbl[z]
+    rho, m = P.observe(lambda: el.density), P.observe(lambda: el.mass)
+    atoms = [(0, 0, el)]
+    for iso in el:
+        atoms.append((iso.isotope, 0, iso))
+        if el.ions:
+            q = el.ions[iso.isotope % len(el.ions)]
+            atoms.append((iso.isotope, q, P.observe(lambda: iso.ion[q])))
+    if el.ions:
+        atoms.append((0, el.ions[0], P.observe(lambda: el.ion[el.ions[0]])))
+    for a, q, x in atoms:
+        if isinstance(x, str):
+            bad.append((a, q, "ion", "exists", "X"))
+            continue
+        got_rho = P.observe(lambda: x.density)
+        n = P.observe(lambda: x.number_density)
+        d = P.observe(lambda: x.interatomic_distance)
+        if rho is None:
+            for name, g in (("density", got_rho), ("number_density", n), ("interatomic_distance", d)):
+                if g is not None:
+                    bad.append((a, q, name, "N", P.tok(g)))
+            continue
+        if not (P.isfinite(rho) and P.isfinite(m) and m > 0 and rho > 0):
+            continue
+        if a:
+            mi = P.observe(lambda: el[a].mass)
+            if P.isfinite(mi):
+                e = Fraction(rho) * Fraction(mi) / Fraction(m)
+                if not agrees(e, got_rho, 1e-13):
+                    bad.append((a, q, "density", P.tok(fnum(e)), P.tok(got_rho)))
+        elif got_rho != rho:
+            bad.append((a, q, "density", P.tok(rho), P.tok(got_rho)))
+        e = Fraction(rho) * na / Fraction(m)
+        if not agrees(e, n, 1e-13):
+            bad.append((a, q, "number_density", P.tok(fnum(e)), P.tok(n)))
+        elif not (P.isfinite(d) and close(n * d ** 3, 1e24, rel=1e-12)):
+            bad.append((a, q, "n*d^3", "1e24", P.tok(d if not P.isfinite(d) else n * d ** 3)))
+    return bad
+
+
+def revised_table(mass, density, seed, first_read=True):
+    """a private table initialised, read, revised by its owner (seeded)"""
+    tbl = P.fresh_private("c06")
+    mass.init(tbl)
+    density.init(tbl)
+    if first_read:
+        read_everything(tbl)
+    touched = customise(tbl, seed)
+    return tbl, touched
+
+
+def reloaded_table(mass, density, seed):
+    tbl, _ = revised_table(mass, density, seed)
+    read_everything(tbl)
+    mass.init(tbl, reload=True)
+    density.init(tbl, reload=True)
+    return tbl
+
+
+def revise_and_reload(run: Run, exp, src, dens_rows, na, nontrivial_keys, mass, density):
+    """read – revise – read again, then the documented way back: init(table, reload=True)"""
+    seed = run.rng.randrange(1 << 30)
+    extra = dict(custom_seed=seed)
+    try:
+        tbl, touched = revised_table(mass, density, seed)
+    except Exception as e:  # noqa
+        run.violation("revising a private table raises: %s: %s" % (type(e).__name__, e),
+                      dict(extra, table="private-revised"), observable="revise")
+        return
+    for z in range(0, 119):
+        run.count(key=("private-revised", z, seed), nontrivial=z in touched, tag="sweep:private-revised",
+                  sample="private-revised seed=%d z=%d" % (seed, z) if z == 3 else None)
+        for a, q, name, e, g in oracle_relations(tbl, z, na):
+            run.violation("%s of %s%s%s in a revised private table does not follow from the table's mass and density"
+                          % (name, exp.symbols.get(z), "[%d]" % a if a else "", ".ion[%d]" % q if q else ""),
+                          dict(extra, table="private-revised", z=z, a=a, q=q, observable=name, expected=e, got=g),
+                          observable=name, z=z, a=a)
+    try:
+        read_everything(tbl)
+        mass.init(tbl, reload=True)
+        density.init(tbl, reload=True)
+    except Exception as e:  # noqa
+        run.violation("init(table, reload=True) raises: %s: %s" % (type(e).__name__, e),
+                      dict(extra, table="private-reloaded"), observable="reload")
+        P.drop_private(tbl)
+        return
+    sweep(run, "private-reloaded", tbl, exp, src, dens_rows, na, nontrivial_keys, extra=extra)
+    P.drop_private(tbl)
 
 
 # =========================================================================== generated tables
@@ -663,6 +942,8 @@ def run(run: Run) -> int:
     density.init(priv)
     sweep(run, "private-inspected", priv, exp, src, dens_rows, na, nontrivial_keys)
     P.drop_private(priv)
+    # a private table that was read, revised by its owner, and re-initialised with reload=True
+    revise_and_reload(run, exp, src, dens_rows, na, nontrivial_keys, mass, density)
     run.exhaustive = True
     # parse_uncertainty on its own
     check_parse_uncertainty(run, parse_uncertainty, 300 if run.tier == "quick" else 50000)
@@ -703,7 +984,13 @@ def replay(data) -> int:
             continue
         else:
             tbl = pt.elements
-            if str(inp.get("table")).startswith("private"):
+            if inp.get("table") == "private-revised":
+                tbl, _ = revised_table(mass, density, inp["custom_seed"])
+                print(" relations on the real code:", oracle_relations(tbl, inp.get("z", 0), na))
+                continue
+            if inp.get("table") == "private-reloaded":
+                tbl = reloaded_table(mass, density, inp["custom_seed"])
+            elif str(inp.get("table")).startswith("private"):
                 tbl = P.fresh_private("c06")
                 if inp.get("table") == "private-inspected":
                     for el in tbl:
@@ -712,6 +999,13 @@ def replay(data) -> int:
                 density.init(tbl)
             z, a = inp.get("z", 0), inp.get("a", 0)
             print(" oracle on the real code:", oracle_atom(exp, tbl, z, a, na))
+            if inp.get("route") == "ion":
+                print(" oracle on the ion       :", oracle_ion(exp, tbl, z, a, inp["q"], na))
+            elif str(inp.get("route", "")).startswith("table."):
+                for name, aa, long_name in ALIASES:
+                    for how, get in alias_routes(tbl, name, long_name):
+                        if how == inp["route"]:
+                            print(" oracle through %s:" % how, oracle_atom(exp, tbl, 1, aa, na, obj=P.observe(get)))
             obs, _ = observe_table(tbl, [z])
             print(" real code :", [P.tok(x) for x in obs.get((z, a), [])])
             lines = table_lines(src["isotope_mass"], src["element_mass"], src["isotope_abundance"], dens_rows)
